@@ -1,7 +1,9 @@
 """C09 - configured resource limits bound what an input can make pdfcpu allocate.
 G: TLC enumerates bomb configurations (spec/LimitsGen.tla): filter pipeline x container x size class relative to the
    limit x limit; oversized / lying /Length relative to MaxStreamBytes; /Size, /Index, object stream /N and /First,
-   nesting depth and image pixels relative to their limits.
+   nesting depth and image pixels relative to their limits; /Index with several repeated / overlapping / adjacent
+   subsections whose total is relative to the limit; flows over derived contexts (read -> pages migrated into a new
+   context or merged into another document -> images / content / optimize / write on the derived context).
 R: harness/cmd/robust c09 builds every bomb with the real pdfcpu encoders + a raw emitter and runs read, read with
    DecodeAllStreams, validate, optimize+write and extraction on it in child processes under the configured limits,
    recording outcome, error class, largest decoded / encoded stream materialised, materialised counts and heap peak.
@@ -13,7 +15,8 @@ META = {
     "level": "exploration",
     "text": "TLC enumerates decompression-bomb and oversize configurations (1-3 stage pipelines of Flate/LZW/RunLength/ASCIIHex with and "
             "without predictor, in content streams, object streams, xref streams and images; sizes L-1, L, L+1, 100L for limits of 4 KB, "
-            "64 KB, 1 MB; lying /Length; oversized /Size, /Index, /N, /First, nesting and image pixels). Each is built with the real "
+            "64 KB, 1 MB; lying /Length; oversized /Size, /Index (one or many subsections), /N, /First, nesting and image pixels; flows "
+            "in which the bomb is decoded for the first time in a context derived by page extraction or merge). Each is built with the real "
             "encoders, processed by read/validate/optimize/extract under the configured limits in a child process, and TLC judges the "
             "recorded outcome: nothing larger than the limit is materialised, oversized counts are not materialised, no crash/timeout, and "
             "the heap peak stays within c1*(what the limits allow) + c2*|input| + c0.",
@@ -109,8 +112,8 @@ def run(ctx):
                     ev.sample({"class": want, "case": crow[r["idx"]], "record": r})
                     break
         ev.cov(evaluations=len(rows), distinct_nontrivial=len(nontriv),
-               rule="one evaluation = one operation (read, read with DecodeAllStreams, validate, optimize+write, extract content/images, import/stamp "
-                    "image) on one bomb configuration enumerated by TLC from LimitsGen.tla; non-trivial = distinct configurations that ask for more "
+               rule="one evaluation = one operation (read, read with DecodeAllStreams, validate, optimize+write, extract content/images, ExtractImage on "
+                    "every image of the context, parse of the xref stream dictionary alone, derive>consume flows, import/stamp image) on one bomb configuration enumerated by TLC from LimitsGen.tla; non-trivial = distinct configurations that ask for more "
                     "than a configured limit (decoded stage output, encoded size or count beyond the limit)",
                traces_validated_against_impl=len(rows), configurations=ncase, classes=dict(ccount),
                max_heap_peak_kb=max(r["peakkb"] for r in rows), max_rss_kb=max(r["rsskb"] for r in rows),
